@@ -34,6 +34,7 @@ HEAD = '''module amod
   type :: tt
     real :: x
     real :: arr(0:4)
+    real :: m2(3, 4)
     type(st) :: s
   end type tt
 contains
@@ -45,10 +46,10 @@ contains
     real, intent(inout) :: z
     z = z + 2.0
   end subroutine addtwo
-  subroutine kern(n, a, b, t, ts, r)
+  subroutine kern(n, a, b, t, u, ts, r)
     integer, intent(in) :: n
     real, intent(inout) :: a(0:n), b(n)
-    type(tt), intent(inout) :: t
+    type(tt), intent(inout) :: t, u
     type(tt), intent(inout) :: ts(2)
     real, intent(inout) :: r
     integer :: i
@@ -166,6 +167,21 @@ BLOCKS = {
       end do
     end associate
 ''',
+    'row_of_matrix': '''    associate (row => t%m2(2, :), col => t%m2(:, 3))
+      row(1) = row(4) + 1.0
+      col(2) = col(3) * 2.0
+      do i = 1, 3
+        row(i) = row(i) + col(i)
+      end do
+    end associate
+''',
+    'mid_of_cube': '''    associate (mid => t%m2(:, :))
+      associate (r2 => mid(3, :))
+        r2(2) = r2(1) - 1.0
+      end associate
+      mid(1, 2) = mid(2, 1)
+    end associate
+''',
     'inner_independent': '''    associate (p => t%s)
       associate (q => ts(2)%s%v, u => p%m)
         q(1) = q(1) + real(u)
@@ -179,7 +195,7 @@ DRIVER = '''program drv
   implicit none
   integer :: n, g, e
   real, allocatable :: a(:), b(:)
-  type(tt) :: t, ts(2)
+  type(tt) :: t, u, ts(2)
   real :: r
   do g = 1, 3
     n = 3 + g
@@ -190,15 +206,21 @@ DRIVER = '''program drv
     do e = 1, n
       b(e) = real(mod(e * g, 4)) * 0.25 + 1.0
     end do
+    t%m2 = reshape((/ 1.0, 2.0, 3.0, 4.0, 5.0, 6.0, 7.0, 8.0, 9.0, 10.0, 11.0, 12.0 /), (/ 3, 4 /)) * 0.5
     t%x = 0.5 * real(g); t%arr = (/ 1.0, 2.0, 3.0, 4.0, 5.0 /); t%s%v = (/ 0.5, 1.5, -1.0, 2.0 /); t%s%m = g
     ts(1) = t; ts(2) = t; ts(2)%x = -1.5; ts(1)%s%v(3) = 8.0
+    u = t; u%x = 2.5; u%arr = (/ -1.0, 0.5, 4.0, 1.5, 3.0 /); u%s%v = (/ 2.0, -0.5, 1.0, 4.0 /); u%s%m = 7
     r = real(g) - 0.5
-    call kern(n, a, b, t, ts, r)
+    call kern(n, a, b, t, u, ts, r)
     write(*,'(A,I0)') 'G', g
     write(*,'(A,20(1X,ES14.7))') 'A', a
     write(*,'(A,20(1X,ES14.7))') 'B', b
     write(*,'(A,20(1X,ES14.7))') 'T', t%x, t%arr, t%s%v
+    write(*,'(A,20(1X,ES14.7))') 'M2', t%m2
+    write(*,'(A,20(1X,ES14.7))') 'UM2', u%m2
     write(*,'(A,I0)') 'TM', t%s%m
+    write(*,'(A,20(1X,ES14.7))') 'U', u%x, u%arr, u%s%v
+    write(*,'(A,I0)') 'UM', u%s%m
     write(*,'(A,20(1X,ES14.7))') 'TS1', ts(1)%x, ts(1)%arr, ts(1)%s%v
     write(*,'(A,20(1X,ES14.7))') 'TS2', ts(2)%x, ts(2)%arr, ts(2)%s%v
     write(*,'(A,I0,1X,I0)') 'TSM', ts(1)%s%m, ts(2)%s%m
@@ -217,16 +239,35 @@ XFORMS = [
 ]
 
 
+# Staged histories (<= 3 steps): partial in-place resolution of the first statement inside the first ASSOCIATE,
+# a SubstituteExpressions pass that redirects the kernel from `t` to `u` (rewrites selectors in place), merging, and
+# full resolution.  The reference of a history containing 'sub' is the harness-side textual rewrite t% -> u%.
+STAGED = [('partial', 'resolve'), ('sub', 'resolve'), ('partial', 'sub'), ('partial', 'sub', 'resolve'),
+          ('merge', 'sub', 'resolve'), ('partial', 'merge', 'resolve')]
+
+
+def _redirect(text):
+    import re
+    return re.sub(r'\bt%', 'u%', text)
+
+
 def make_cases(d):
     names = [k for k in BLOCKS if k != 'base']
     cases = []
     for dev in deviations({k: [True] for k in names}, d):
         blocks = ['base'] + [k for k in names if k in dev]
-        text = HEAD + ''.join(BLOCKS[k] for k in blocks) + TAIL
+        body = ''.join(BLOCKS[k] for k in blocks)
+        text = HEAD + body + TAIL
         for xf, opts in XFORMS:
             oid = ','.join(f'{k}={v}' for k, v in sorted(opts.items()))
             cases.append(dict(id=f'{"+".join(blocks)}|{xf}({oid})', sources=[['amod.f90', text]], driver=DRIVER,
                               xform=xf, opts=opts, switches=sorted(dev)))
+        if len(dev) <= 1:
+            for steps in STAGED:
+                ref = HEAD + (_redirect(body) if 'sub' in steps else body) + TAIL
+                cases.append(dict(id=f'{"+".join(blocks)}|staged({">".join(steps)})', sources=[['amod.f90', ref]],
+                                  loki_sources=[['amod.f90', text]], driver=DRIVER, xform='staged',
+                                  opts=dict(steps=list(steps)), switches=sorted(dev)))
     return cases
 
 
@@ -245,6 +286,25 @@ def apply(case, files):
                 do_resolve_associates(r, start_depth=o['start_depth'])
             elif xf == 'trafo':
                 AssociatesTransformation(**o).apply(r)
+            elif xf == 'staged':
+                if r.name.lower() != 'kern':
+                    continue
+                from loki import FindNodes, SubstituteExpressions, ir
+                from loki.transformations.sanitise.associates import ResolveAssociatesTransformer
+                for step in o['steps']:
+                    if step == 'partial':
+                        assocs = FindNodes(ir.Associate).visit(r.body)
+                        inner = [n for n in assocs[0].body if not isinstance(n, (ir.Comment, ir.CommentBlock))]
+                        ResolveAssociatesTransformer(inplace=True).visit(inner[0])
+                    elif step == 'sub':
+                        vmap = r.variable_map
+                        r.body = SubstituteExpressions({vmap['t']: vmap['u']}).visit(r.body)
+                    elif step == 'merge':
+                        do_merge_associates(r, max_parents=None)
+                    elif step == 'resolve':
+                        do_resolve_associates(r)
+                    else:
+                        raise ValueError(step)
             else:
                 raise ValueError(xf)
 
@@ -262,7 +322,7 @@ def sigfn(results_by_id):
     def sig(case, r):
         # a failing single-block case explains multi-block cases that contain the block (same xform, same verdict)
         xf = case['id'].split('|', 1)[1]
-        fam = case['xform']
+        fam = case['xform'] if case['xform'] != 'staged' else 'staged(' + '>'.join(case['opts']['steps']) + ')'
         for sw in case['switches']:
             single = results_by_id.get(f'base+{sw}|{xf}')
             if single and single['verdict'] == r['verdict']:
